@@ -250,6 +250,16 @@ func c11PointerTransparency(r *Run) {
 		r.Lost("R4", "identifier / call evaluators")
 		return
 	}
+	// the member navigation may live in the identifier evaluator itself or in a helper evaluator it delegates to
+	navID := id
+	for _, cand := range w.evalMethods("Identifier") {
+		for _, c := range callsIn(cand.Decl.Body, true) {
+			if isReflectValueMethod(cand.Pkg.TypesInfo, c, "FieldByName") {
+				navID = cand
+			}
+		}
+	}
+	id = navID
 	info := id.Pkg.TypesInfo
 	// identifier: `if rv.Kind() == reflect.Ptr { rv = rv.Elem() }` before `if rv.Kind() != reflect.Struct`
 	var derefPos, structPos token.Pos
